@@ -1,18 +1,26 @@
-"""C13 generator: Generated/FlashEncConsts.lean from the CURRENT otfad.py / iee.py / bee.py / crc.py (pure `ast` reading).
+"""C13 generator: Generated/FlashEncConsts.lean from the CURRENT otfad.py / iee.py / bee.py / crc.py / sb_21_helper.py.
 
-Emits plain `def`s (namespace SpsdkVerif.Generated.FlashEncConsts) for every class / module constant the
-flash-encryption model (Model/FlashEnc.lean) is written with: address masks, flag bits, unit sizes, export
-sizes, IEE header tag / version / attribute tags, BEE unit size, the CRC-32/MPEG parameter set, and the
-integer literals that sit inline in the anchored functions (`plaintext[:40]`, the `>> 12` of
-calculate_tweak, the `>> 4` of the CTR address binding, the scramble `& 0x03`, the 256-byte table alignment).
-`Properties/C13.lean` proves `consts_agree` (they equal the engine-side values the hardware model is written
-with), so a changed source constant stops a theorem from compiling.  A constant that cannot be found is
-emitted as 999999.
+Pure static reading; every value is read BY VALUE through tools/extract/consteval.py, never by spelling:
+  * named class / module constants and enum tags (`0x07`, `0b111`, `1 << 2`, `0x400 - 1`, `OTHER_CONST` all give the same text);
+  * a few USE-SITE facts the model is written with, located semantically (a call of a named callee somewhere in a named
+    method — or in a same-class helper it calls, one level deep) and evaluated through the class environment, with a local
+    variable resolved through its single assignment:
+      - the argument of `counter.increment(...)`                    in KeyBlob.encrypt_image      (counter step per block)
+      - the length of the slice wrapped by `aes_key_wrap(kek, …)`   in KeyBlob.export             (40)
+      - the alignment argument of `align_block(…, N)`               in Otfad.encrypt_key_blobs (256), IeeKeyBlob.plain_data (32),
+                                                                       SB21Helper._encrypt (512)
+      - the CRC32_MPEG entry of CRC_ALGORITHMS (keyword or positional CrcConfig arguments)
+Facts that are only spelled as arithmetic inside a loop body (the `>> 12` of calculate_tweak, the `>> 4` of the CTR address
+binding, the `& 3`, `* 2`, `* 4` of the KEK scrambling) are deliberately NOT extracted: there is no shape-independent way to read
+them statically; they are literals of the hand model (Model/FlashEnc.lean) and are tied to the code by the correspondence and
+the hardware oracle, which report a change with a concrete failing input.
+A value that cannot be read is emitted as the opaque stand-in 999999 (the theorems over it stop compiling) — never a default.
 """
 from __future__ import annotations
 
 import ast
 
+from consteval import ModuleEnv, NotConst
 from extract import emit, parse
 
 OTFAD = "spsdk/utils/crypto/otfad.py"
@@ -23,6 +31,7 @@ SB21 = "spsdk/sbfile/sb2/sb_21_helper.py"
 MISSING = 999999
 
 
+# ----------------------------------------------------------------------------------------------- AST helpers
 def _cls(tree, name):
     for n in ast.walk(tree):
         if isinstance(n, ast.ClassDef) and n.name == name:
@@ -30,143 +39,213 @@ def _cls(tree, name):
     return None
 
 
-def _fun(node, name):
-    if node is None:
+def _method(cnode, name):
+    if cnode is None:
         return None
-    for n in ast.walk(node):
+    for n in cnode.body:
         if isinstance(n, (ast.FunctionDef, ast.AsyncFunctionDef)) and n.name == name:
             return n
     return None
 
 
-def _fold(node, env):
-    """Restricted integer constant folder."""
-    if isinstance(node, ast.Constant) and isinstance(node.value, (int, bool)):
-        return int(node.value)
-    if isinstance(node, ast.Name) and node.id in env:
-        return env[node.id]
-    if isinstance(node, ast.UnaryOp) and isinstance(node.op, ast.USub):
-        v = _fold(node.operand, env)
-        return None if v is None else -v
-    if isinstance(node, ast.BinOp):
-        a, b = _fold(node.left, env), _fold(node.right, env)
-        if a is None or b is None:
-            return None
-        ops = {ast.Add: lambda: a + b, ast.Sub: lambda: a - b, ast.Mult: lambda: a * b, ast.LShift: lambda: a << b,
-               ast.RShift: lambda: a >> b, ast.BitOr: lambda: a | b, ast.BitAnd: lambda: a & b, ast.BitXor: lambda: a ^ b}
-        f = ops.get(type(node.op))
-        return f() if f else None
+def _callee_name(call):
+    f = call.func
+    if isinstance(f, ast.Name):
+        return f.id
+    if isinstance(f, ast.Attribute):
+        return f.attr
     return None
 
 
-def consts_of(body, env=None):
-    """NAME = <int expr> assignments of a class / module body, folded in order."""
-    out = dict(env or {})
-    for st in body:
-        tgt = val = None
-        if isinstance(st, ast.Assign) and len(st.targets) == 1 and isinstance(st.targets[0], ast.Name):
-            tgt, val = st.targets[0].id, st.value
-        elif isinstance(st, ast.AnnAssign) and isinstance(st.target, ast.Name) and st.value is not None:
-            tgt, val = st.target.id, st.value
-        if tgt:
-            v = _fold(val, out)
-            if v is not None:
-                out[tgt] = v
+def _scope(cnode, fn):
+    """`fn` plus the same-class helpers it calls (self.x / cls.x / Class.x / bare x), one level deep."""
+    out = [fn] if fn is not None else []
+    if fn is None or cnode is None:
+        return out
+    names = {m.name for m in cnode.body if isinstance(m, (ast.FunctionDef, ast.AsyncFunctionDef))}
+    for n in ast.walk(fn):
+        if isinstance(n, ast.Call):
+            nm = _callee_name(n)
+            if nm in names and nm != fn.name:
+                h = _method(cnode, nm)
+                if h is not None and h not in out:
+                    out.append(h)
     return out
 
 
-def class_consts(tree, name, env=None):
-    c = _cls(tree, name)
-    return consts_of(c.body, env) if c is not None else {}
+def _calls(cnode, fn, callee):
+    """calls of `callee` inside `fn` or its one-level helpers, in source order"""
+    res = []
+    for f in _scope(cnode, fn):
+        for n in ast.walk(f):
+            if isinstance(n, ast.Call) and _callee_name(n) == callee:
+                res.append((f, n))
+    res.sort(key=lambda t: (t[1].lineno, t[1].col_offset))
+    return res
 
 
-def enum_tags(tree, name):
-    c = _cls(tree, name)
-    out = {}
+def _single_assignment(fn, name):
+    """value node of the only plain assignment `name = <expr>` in `fn` (None if there is none or several)"""
+    found = []
+    for n in ast.walk(fn):
+        if isinstance(n, ast.Assign) and len(n.targets) == 1 and isinstance(n.targets[0], ast.Name) and n.targets[0].id == name:
+            found.append(n.value)
+        elif isinstance(n, ast.AnnAssign) and isinstance(n.target, ast.Name) and n.target.id == name and n.value is not None:
+            found.append(n.value)
+    return found[0] if len(found) == 1 else None
+
+
+def _arg(call, pos, kw):
+    if len(call.args) > pos:
+        return call.args[pos]
+    for k in call.keywords:
+        if k.arg == kw:
+            return k.value
+    return None
+
+
+def _eval_in(env, cname, fn, node, depth=3):
+    """evaluate `node` by value; local names occurring in it are resolved through their single assignment in `fn`"""
+    if node is None:
+        raise NotConst("no such argument")
+    try:
+        return env.eval(node, cls=cname)
+    except NotConst:
+        if not depth or fn is None:
+            raise
+    local = {}
+    for n in ast.walk(node):
+        if isinstance(n, ast.Name) and n.id not in local:
+            v = _single_assignment(fn, n.id)
+            if v is not None:
+                try:
+                    local[n.id] = _eval_in(env, cname, fn, v, depth - 1)
+                except NotConst:
+                    pass
+    if not local:
+        raise NotConst(ast.unparse(node))
+    return env.eval(node, cls=cname, local=local)
+
+
+def _all_equal_value(vals):
+    vals = [v for v in vals if v is not None]
+    if vals and all(v == vals[0] for v in vals):
+        return vals[0]
+    return None
+
+
+def call_arg_value(env, tree, cname, mname, callee, pos, kw):
+    """value of argument (pos | kw) of the calls of `callee` in Class.method (+ helpers); all such calls must agree"""
+    c = _cls(tree, cname)
+    fn = _method(c, mname)
+    vals = []
+    for f, call in _calls(c, fn, callee):
+        try:
+            vals.append(_eval_in(env, cname, f, _arg(call, pos, kw)))
+        except NotConst:
+            vals.append(None)
+            return None
+    return _all_equal_value(vals)
+
+
+def wrapped_len(env, tree):
+    """number of bytes handed to aes_key_wrap in KeyBlob.export: `x[:N]` (directly or through a local), or a constant-length value"""
+    c = _cls(tree, "KeyBlob")
+    fn = _method(c, "export")
+    for f, call in _calls(c, fn, "aes_key_wrap"):
+        node = _arg(call, 1, "key_to_wrap")
+        for _ in range(3):
+            if isinstance(node, ast.Name):
+                nxt = _single_assignment(f, node.id)
+                if nxt is None:
+                    break
+                node = nxt
+            else:
+                break
+        if isinstance(node, ast.Subscript) and isinstance(node.slice, ast.Slice) and node.slice.step is None:
+            lo, up = node.slice.lower, node.slice.upper
+            try:
+                lo_v = 0 if lo is None else _eval_in(env, "KeyBlob", f, lo)
+                up_v = _eval_in(env, "KeyBlob", f, up)
+                if isinstance(lo_v, int) and isinstance(up_v, int) and 0 <= lo_v <= up_v:
+                    return up_v - lo_v
+            except NotConst:
+                return None
+    return None
+
+
+def enum_tag(env, tree, cname, member):
+    c = _cls(tree, cname)
     if c is None:
-        return out
+        return None
     for st in c.body:
-        if isinstance(st, ast.Assign) and len(st.targets) == 1 and isinstance(st.targets[0], ast.Name) \
-                and isinstance(st.value, ast.Tuple) and st.value.elts:
-            v = _fold(st.value.elts[0], {})
-            if v is not None:
-                out[st.targets[0].id] = v
-    return out
+        if isinstance(st, ast.Assign) and len(st.targets) == 1 and isinstance(st.targets[0], ast.Name) and st.targets[0].id == member:
+            try:
+                v = env.eval(st.value, cls=cname)
+            except NotConst:
+                return None
+            if isinstance(v, (tuple, list)) and v:
+                v = v[0]
+            return v if isinstance(v, int) and not isinstance(v, bool) else None
+    return None
 
 
-def int_literals(fn, pred):
-    """Integer literals inside `fn` selected by `pred(parent, node)`, in source order."""
-    out = []
-    if fn is None:
-        return out
-    for parent in ast.walk(fn):
-        for child in ast.iter_child_nodes(parent):
-            if isinstance(child, ast.Constant) and isinstance(child.value, int) and not isinstance(child.value, bool) \
-                    and pred(parent, child):
-                out.append((child.lineno, child.col_offset, child.value))
-    return [v for _, _, v in sorted(out)]
-
-
-def shift_amounts(fn, op=ast.RShift):
-    """Right operands (int literals) of `>>` (or another operator) inside `fn`."""
-    return int_literals(fn, lambda p, c: isinstance(p, ast.BinOp) and isinstance(p.op, op) and p.right is c)
-
-
-def crc_config(tree, member):
-    """CrcConfig(...) keyword arguments of CRC_ALGORITHMS[CrcAlg.<member>]."""
+def crc_config(env, tree, member):
+    """polynomial / initial_value / final_xor / reverse of CRC_ALGORITHMS[CrcAlg.<member>] (keyword or positional CrcConfig arguments)"""
+    fields = []
+    cc = _cls(tree, "CrcConfig")
+    if cc is not None:
+        fields = [st.target.id for st in cc.body if isinstance(st, ast.AnnAssign) and isinstance(st.target, ast.Name)]
     for n in ast.walk(tree):
         if isinstance(n, ast.Dict):
             for k, v in zip(n.keys, n.values):
                 if isinstance(k, ast.Attribute) and k.attr == member and isinstance(v, ast.Call):
                     out = {}
-                    for kw in v.keywords:
-                        try:
-                            out[kw.arg] = ast.literal_eval(kw.value)
-                        except (ValueError, SyntaxError):
-                            pass
+                    try:
+                        for name, a in zip(fields, v.args):
+                            out[name] = env.eval(a)
+                        for kw in v.keywords:
+                            out[kw.arg] = env.eval(kw.value)
+                    except NotConst:
+                        return {}
                     return out
     return {}
 
 
+# ----------------------------------------------------------------------------------------------- generator
 def gen_FlashEncConsts():
     otfad, iee, bee, crc = (parse(p) for p in (OTFAD, IEE, BEE, CRC))
+    eo, ei, eb, ec = ModuleEnv(otfad), ModuleEnv(iee), ModuleEnv(bee), ModuleEnv(crc)
     meta = {"sources": [OTFAD, IEE, BEE, CRC, SB21], "missing": []}
     L = ["namespace SpsdkVerif.Generated.FlashEncConsts", ""]
 
     def d(name, val, comment):
-        if val is None or not isinstance(val, int) or val < 0:
+        if val is None or isinstance(val, bool) or not isinstance(val, int) or val < 0:
             meta["missing"].append(name)
             val = MISSING
         L.append(f"def {name} : Nat := {val}  -- {comment}")
         meta[name] = val
 
+    def cval(env, cname, attr):
+        try:
+            return env.cls(cname).value(attr)
+        except NotConst:
+            return None
+
     # ---------------- OTFAD
-    kb = class_consts(otfad, "KeyBlob")
     for lean, py in (("otfadStartAddrMask", "_START_ADDR_MASK"), ("otfadEndAddrMask", "_END_ADDR_MASK"),
                      ("otfadKeyFlagMask", "_KEY_FLAG_MASK"), ("otfadFlagRO", "KEY_FLAG_READ_ONLY"),
                      ("otfadFlagADE", "KEY_FLAG_ADE"), ("otfadFlagVLD", "KEY_FLAG_VLD"), ("otfadKeySize", "KEY_SIZE"),
                      ("otfadCtrSize", "CTR_SIZE"), ("otfadExportIvSize", "_EXPORT_CTR_IV_SIZE"),
                      ("otfadExportNBlocks", "_EXPORT_NBLOCKS_5"), ("otfadExportBlobSize", "_EXPORT_KEY_BLOB_SIZE"),
                      ("otfadEncBlockSize", "_ENCRYPTION_BLOCK_SIZE")):
-        d(lean, kb.get(py), f"KeyBlob.{py}")
-    d("otfadDataUnit", class_consts(otfad, "Otfad").get("OTFAD_DATA_UNIT"), "Otfad.OTFAD_DATA_UNIT")
-    kbc = _cls(otfad, "KeyBlob")
-    otc = _cls(otfad, "Otfad")
-    # `plaintext[:40]` of KeyBlob.export = number of wrapped bytes
-    wrapped = int_literals(_fun(kbc, "export"), lambda p, c: isinstance(p, ast.Slice) and p.upper is c)
-    d("otfadWrappedLen", wrapped[0] if wrapped else None, "KeyBlob.export: aes_key_wrap(kek, plaintext[:N])")
-    # key-blob table alignment (align_block(result, 256)) and the scramble selector arithmetic
-    ekb = _fun(otc, "encrypt_key_blobs")
-    al = int_literals(ekb, lambda p, c: isinstance(p, ast.Call) and getattr(p.func, "id", "") == "align_block" and len(p.args) > 1 and p.args[1] is c)
-    d("otfadTableAlign", al[0] if al else None, "Otfad.encrypt_key_blobs: align_block(result, N)")
-    msk = int_literals(ekb, lambda p, c: isinstance(p, ast.BinOp) and isinstance(p.op, ast.BitAnd) and p.right is c)
-    d("otfadScrambleSelMask", msk[0] if msk else None, "Otfad.encrypt_key_blobs: (align >> (i * 2)) & N")
-    mul = int_literals(ekb, lambda p, c: isinstance(p, ast.BinOp) and isinstance(p.op, ast.Mult) and p.right is c)
-    d("otfadScrambleSelBits", mul[0] if mul else None, "Otfad.encrypt_key_blobs: align >> (i * N)")
-    d("otfadScrambleWord", mul[1] if len(mul) > 1 else None, "Otfad.encrypt_key_blobs: scrambled[(long_ix * N) + j]")
-    # counter increment per 16-byte block in KeyBlob.encrypt_image
-    inc = int_literals(_fun(kbc, "encrypt_image"), lambda p, c: isinstance(p, ast.Call) and getattr(p.func, "attr", "") == "increment" and p.args and p.args[0] is c)
-    d("otfadCtrIncrement", inc[0] if inc else None, "KeyBlob.encrypt_image: counter.increment(N)")
+        d(lean, cval(eo, "KeyBlob", py), f"KeyBlob.{py}")
+    d("otfadDataUnit", cval(eo, "Otfad", "OTFAD_DATA_UNIT"), "Otfad.OTFAD_DATA_UNIT")
+    d("otfadWrappedLen", wrapped_len(eo, otfad), "KeyBlob.export: number of bytes given to aes_key_wrap")
+    d("otfadTableAlign", call_arg_value(eo, otfad, "Otfad", "encrypt_key_blobs", "align_block", 1, "alignment"),
+      "Otfad.encrypt_key_blobs: align_block(result, N)")
+    d("otfadCtrIncrement", call_arg_value(eo, otfad, "KeyBlob", "encrypt_image", "increment", 0, "value"),
+      "KeyBlob.encrypt_image: counter.increment(N)")
 
     # ---------------- IEE
     for lean, (cls_, member) in (("ieeLock", ("IeeKeyBlobLockAttributes", "LOCK")), ("ieeUnlock", ("IeeKeyBlobLockAttributes", "UNLOCK")),
@@ -175,55 +254,47 @@ def gen_FlashEncConsts():
                                  ("ieeModeCtrAddr", ("IeeKeyBlobModeAttributes", "AesCTRWAddress")),
                                  ("ieeModeCtrNoAddr", ("IeeKeyBlobModeAttributes", "AesCTRWOAddress")),
                                  ("ieeModeCtrKeystream", ("IeeKeyBlobModeAttributes", "AesCTRkeystream"))):
-        d(lean, enum_tags(iee, cls_).get(member), f"{cls_}.{member}")
-    ikb = class_consts(iee, "IeeKeyBlob")
+        d(lean, enum_tag(ei, iee, cls_, member), f"{cls_}.{member}")
     for lean, py in (("ieeHeaderTag", "HEADER_TAG"), ("ieeKeyblobVersion", "KEYBLOB_VERSION"), ("ieeXtsBlockSize", "_IEE_ENCR_BLOCK_SIZE_XTS"),
                      ("ieeEncBlockSize", "_ENCRYPTION_BLOCK_SIZE"), ("ieeStartAddrMask", "_START_ADDR_MASK")):
-        d(lean, ikb.get(py), f"IeeKeyBlob.{py}")
-    ic = class_consts(iee, "Iee")
-    d("ieeDataUnit", ic.get("IEE_DATA_UNIT"), "Iee.IEE_DATA_UNIT")
-    d("ieeKeyBlobsSize", ic.get("IEE_KEY_BLOBS_SIZE"), "Iee.IEE_KEY_BLOBS_SIZE")
-    ikc = _cls(iee, "IeeKeyBlob")
-    sh = shift_amounts(_fun(ikc, "calculate_tweak"))
-    d("ieeTweakShift", sh[0] if sh else None, "IeeKeyBlob.calculate_tweak: sector = address >> N")
-    sh = shift_amounts(_fun(ikc, "encrypt_image_ctr"))
-    d("ieeCtrAddrShift", sh[0] if sh else None, "IeeKeyBlob.encrypt_image_ctr: ctr_value = base_address >> N")
-    pads = int_literals(_fun(ikc, "plain_data"), lambda p, c: isinstance(p, ast.Call) and getattr(p.func, "id", "") == "align_block" and len(p.args) > 1 and p.args[1] is c)
-    d("ieeKeyFieldSize", pads[0] if pads else None, "IeeKeyBlob.plain_data: align_block(self.key1, N)")
+        d(lean, cval(ei, "IeeKeyBlob", py), f"IeeKeyBlob.{py}")
+    d("ieeDataUnit", cval(ei, "Iee", "IEE_DATA_UNIT"), "Iee.IEE_DATA_UNIT")
+    d("ieeKeyBlobsSize", cval(ei, "Iee", "IEE_KEY_BLOBS_SIZE"), "Iee.IEE_KEY_BLOBS_SIZE")
+    d("ieeKeyFieldSize", call_arg_value(ei, iee, "IeeKeyBlob", "plain_data", "align_block", 1, "alignment"),
+      "IeeKeyBlob.plain_data: align_block(self.key1 / self.key2, N)")
 
     # ---------------- BEE
-    bm = consts_of(bee.body)
-    d("beeEncrBlockSize", bm.get("BEE_ENCR_BLOCK_SIZE"), "bee.BEE_ENCR_BLOCK_SIZE")
-    sh = shift_amounts(_fun(_cls(bee, "BeeProtectRegionBlock"), "encrypt_block"))
-    d("beeCtrAddrShift", sh[0] if sh else None, "BeeProtectRegionBlock.encrypt_block: ctr_value = start_addr >> N")
-    d("beeFacRegions", class_consts(bee, "BeeProtectRegionBlock").get("FAC_REGIONS"), "BeeProtectRegionBlock.FAC_REGIONS")
-
-    prdb = class_consts(bee, "BeeProtectRegionBlock")
+    try:
+        bsz = eb.value("BEE_ENCR_BLOCK_SIZE")
+    except NotConst:
+        bsz = None
+    d("beeEncrBlockSize", bsz, "bee.BEE_ENCR_BLOCK_SIZE")
+    d("beeFacRegions", cval(eb, "BeeProtectRegionBlock", "FAC_REGIONS"), "BeeProtectRegionBlock.FAC_REGIONS")
     for lean, py in (("beeTagL", "TAGL"), ("beeTagH", "TAGH"), ("beeVersion", "VERSION"), ("beePrdbSize", "SIZE")):
-        d(lean, prdb.get(py), f"BeeProtectRegionBlock.{py}")
-    rh = class_consts(bee, "BeeRegionHeader")
-    d("beeHdrPrdbOffset", rh.get("PRDB_OFFSET"), "BeeRegionHeader.PRDB_OFFSET")
-    d("beeHdrSize", rh.get("SIZE"), "BeeRegionHeader.SIZE")
-    d("beeModeCtr", enum_tags(bee, "BeeProtectRegionBlockAesMode").get("CTR"), "BeeProtectRegionBlockAesMode.CTR")
+        d(lean, cval(eb, "BeeProtectRegionBlock", py), f"BeeProtectRegionBlock.{py}")
+    d("beeHdrPrdbOffset", cval(eb, "BeeRegionHeader", "PRDB_OFFSET"), "BeeRegionHeader.PRDB_OFFSET")
+    d("beeHdrSize", cval(eb, "BeeRegionHeader", "SIZE"), "BeeRegionHeader.SIZE")
+    d("beeModeCtr", enum_tag(eb, bee, "BeeProtectRegionBlockAesMode", "CTR"), "BeeProtectRegionBlockAesMode.CTR")
 
     # ---------------- SB2.1 helper: `encrypt` command
     try:
         sb21 = parse(SB21)
-        al = int_literals(_fun(_cls(sb21, "SB21Helper"), "_encrypt"),
-                          lambda p, c: isinstance(p, ast.Call) and getattr(p.func, "id", "") == "align_block" and len(p.args) > 1 and p.args[1] is c)
+        al = call_arg_value(ModuleEnv(sb21), sb21, "SB21Helper", "_encrypt", "align_block", 1, "alignment")
     except (OSError, SyntaxError):
-        al = []
-    d("sb21EncryptAlign", al[0] if al else None, "SB21Helper._encrypt: align_block(data, N)")
+        al = None
+    d("sb21EncryptAlign", al, "SB21Helper._encrypt: align_block(data, N)")
 
     # ---------------- CRC-32/MPEG-2 as configured in CRC_ALGORITHMS (crcmod semantics: register init = initCrc xor xorOut)
-    cc = crc_config(crc, "CRC32_MPEG")
+    cc = crc_config(ec, crc, "CRC32_MPEG")
     poly, init, fx, rev = cc.get("polynomial"), cc.get("initial_value"), cc.get("final_xor"), cc.get("reverse")
+    if not isinstance(rev, bool):
+        poly = None         # unreadable entry: opaque stand-in, the CRC theorems stop compiling
     d("crcMpegPolyFull", poly, "CRC_ALGORITHMS[CRC32_MPEG].polynomial (with the x^32 term)")
     d("crcMpegInitCrc", init, "CRC_ALGORITHMS[CRC32_MPEG].initial_value (crcmod initCrc)")
     d("crcMpegXorOut", fx, "CRC_ALGORITHMS[CRC32_MPEG].final_xor")
     L.append(f"def crcMpegReverse : Bool := {'true' if rev else 'false'}  -- CRC_ALGORITHMS[CRC32_MPEG].reverse")
     meta["crcMpegReverse"] = bool(rev)
-    if rev is None:
+    if not isinstance(rev, bool):
         meta["missing"].append("crcMpegReverse")
     L += ["", "end SpsdkVerif.Generated.FlashEncConsts"]
     emit("FlashEncConsts", "\n".join(L) + "\n", meta)
